@@ -820,6 +820,10 @@ def fresh_source(ctx):
 def _sel_loop(ctx):
     f = S(ctx, "StoreBackendMixin._get_items_to_delete")
     loops = [l for l in nodes_of_type(f, ast.For) if any(call_attr(c) == "append" for c in calls_in(l))]
+    if not loops:
+        cand = [l for l in nodes_of_type(f, ast.For) if dotted(l.iter) == "items"]
+        if cand:
+            ctx.bad(cand[0], "the selection loop of _get_items_to_delete no longer collects the items it selects: nothing is ever evicted", key=SB + "::StoreBackendMixin._get_items_to_delete::selection loop collects")
     ctx.need(loops, "selection loop not found in _get_items_to_delete")
     return f, loops[0]
 
@@ -898,10 +902,13 @@ def all_limits(ctx):
                   "the stop test %s does not require the %s limit: reduce_size may return with it violated, or evict too much" % (conj, k))
     ctx.check(len(conj) == 3, stops[0], "exactly the three limits are conjoined")
     early = [n for n in nodes_of_type(f, ast.If) if any(isinstance(s, ast.Return) for s in n.body) and "to_delete_size" in unparse(n.test)]
-    ctx.need(early, "early-return test not found")
-    ec = [unparse(c) for c in _conj(early[0].test)]
-    for form in ("to_delete_size <= 0", "to_delete_items <= 0", "deadline is None or older_item > deadline"):
-        ctx.check(form in ec, early[0], "nothing is evicted only if `%s`" % form, "early return %s lost `%s`" % (ec, form))
+    if not early:
+        # the early return is a shortcut: without it the selection loop stops at its first item under the same three tests
+        ctx.ok(f, "no early return: the selection loop alone decides (its stop test holds at the first item when nothing is to be evicted)", key=SB + "::StoreBackendMixin._get_items_to_delete::early return")
+    for e_ in early:
+        ec = [unparse(c) for c in _conj(e_.test)]
+        for form in ("to_delete_size <= 0", "to_delete_items <= 0", "deadline is None or older_item > deadline"):
+            ctx.check(form in ec, e_, "nothing is evicted only if `%s`" % form, "early return %s lost `%s`" % (ec, form))
     defs = {
         "to_delete_size": ("bytes_limit", "size - bytes_limit"),
         "to_delete_items": ("items_limit", "len(items) - items_limit"),
